@@ -44,7 +44,8 @@ NAMES = [
     ("iTerm2", ["3.4.19", "3.5.0beta"]),
     ("xterm", ["388"]),
     ("foot", ["1.16.2"]),
-    ("contour", ["0.3.12"]),
+    # (versions with a remark in parentheses)
+    ("contour", ["0.3.12", "0.3.12.262 (release)", "0.4.0(beta)"]),
     ("VTE", ["7200"]),
     # names that are not plain words, and a terminal that gives no version
     ("xterm.js", ["5.3.0"]),
@@ -106,6 +107,9 @@ def plan(tier, seed):
         (fixed(name="kitty", version=None, xtversion=False, kitty_graphics=True), ("kitty", None)),
         (fixed(name="xterm.js", version="5.3.0"), None),
         (fixed(name="st-term", version="0.9", xtversion_style="space"), None),
+        (fixed(name="contour", version="0.3.12.262 (release)", xtversion_style="space"), None),
+        (fixed(name="contour", version="0.4.0(beta)", xtversion_style="paren"), None),
+        (fixed(name="Konsole", version="22.12.3 (KDE Gear 22.12)", xtversion_style="space", kitty_graphics=True), None),
         (fixed(name="foot", version=None), None),
         (fixed(name="kitty", version="0.30.1", kitty_graphics="EINVAL:Unsupported action: q"), None),
         (fixed(name="foot", version=None), ("tmux", "3.3a")),
